@@ -2344,6 +2344,8 @@ class Evaluator:
                 return v
             if fn[1][1].endswith("itemgetter"):
                 return ("sub", arg_terms[0], fn[2][0])
+        if fn[0] == "call" and fn[1] == ("ext", "operator.itemgetter") and len(fn[2]) >= 2 and len(arg_terms) == 1 and all(k_[0] == "const" for k_ in fn[2]) and not fn[3]:
+            return ("tuple", tuple(fold_sub(("sub", arg_terms[0], k_)) for k_ in fn[2]))  # itemgetter(i, j)(x) is (x[i], x[j])
         if fn[0] == "lambda" and fn[1] in self.lambdas:
             ls = self.lambdas[fn[1]]
             rets = ls.raw_returns
@@ -2862,6 +2864,10 @@ class Evaluator:
                 return t_
             return dist(f, live)
         # operator.attrgetter("a.b")(x) is x.a.b ; operator.itemgetter(k)(x) is x[k]
+        if f[0] == "call" and f[1] == ("ext", "operator.itemgetter") and plain and len(args) == 1 and len(f[2]) >= 2:
+            v = self._apply_fn(f, args)
+            if v[0] == "tuple":
+                return v
         if f[0] == "call" and f[1] in (("ext", "operator.attrgetter"), ("ext", "operator.itemgetter")) and plain and len(args) == 1:
             v = self._apply_fn(f, args)
             if not (v[0] == "call" and v[1] == f):
@@ -3244,6 +3250,9 @@ class Evaluator:
             self.nested.setdefault(k, v)
 
     def _reemit(self, e, live, inst, idmap, qual):
+        if e.kind in ("raise", "call") and AND(live, inst(e.live)) == FALSE:
+            # a path of the helper that the arguments of this call rule out (`if axis not in ("time", "frequency"): raise` with axis="time")
+            return Event(e.kind, FALSE, inst(e.term), e.node, (), -1)
         ne = Event(e.kind, AND(live, inst(e.live)), inst(e.term), e.node,
                    tuple(self.loop_stack) + tuple(idmap.get(x, x) for x in e.loops), len(self.events),
                    tuple(self.try_stack) + tuple(idmap.get(x, x) for x in e.handlers),
@@ -4061,6 +4070,14 @@ def fold_sub(t):
         return TRUE if (same if t[1] == "is" else not same) else FALSE
     if t and t[0] == "cmp" and t[1] in ("is", "isnot") and len(t) == 4 and t[3] == NONE and t[2][0] == "global" and t[2][1] in NOT_NONE_GLOBALS:
         return FALSE if t[1] == "is" else TRUE
+    if t and t[0] == "cmp" and t[1] in ("eq", "ne") and len(t) == 4 and t[2][0] == "const" and t[3][0] == "const" \
+            and isinstance(t[2][1], (str, int, float, bool)) and isinstance(t[3][1], (str, int, float, bool)):
+        return TRUE if (t[2][1] == t[3][1]) == (t[1] == "eq") else FALSE  # `axis == "time"` with the axis substituted
+    if t and t[0] == "cmp" and t[1] in ("in", "notin") and len(t) == 4 and t[2][0] == "const" and t[3][0] in ("tuple", "list", "set") \
+            and all(x[0] == "const" for x in t[3][1]):
+        r_ = mk_cmp(t[1], t[2], t[3])
+        if r_[0] == "const":
+            return TRUE if r_[1] else FALSE
     if t and t[0] == "ite" and len(t) == 4 and t[1] in (TRUE, FALSE):
         return t[2] if t[1] == TRUE else t[3]
     if t and t[0] in ("list", "tuple") and len(t) == 2 and isinstance(t[1], tuple) and any(isinstance(x, tuple) and x and x[0] == "star" for x in t[1]):
